@@ -33,7 +33,7 @@ whatever the fuels (above the depth of `x`). -/
 theorem C06_dyn_agrees (hS : ScalarRT E) (hc : RTSafeD c = true) (ht : HasType E c x) (n m : Nat)
     (hn : x.depth < n) (hm : x.depth < m) :
     intoDynF E classes enums n x = intoC E (intoDynF E classes enums m) c x :=
-  C06_dyn_agrees_any hS (intoDynF_dynId E classes enums m) hc hm ht n hn
+  C06_dyn_agrees_any hS (intoDynF_dynId E hS.noElemHook classes enums m) hc hm ht n hn
 
 theorem convertC_of_try {d : Val} (h : tryC E c d = .ok x) : convertC E c d = .value x := by
   simp only [convertC, convertWith, h]
@@ -63,7 +63,7 @@ theorem C06_fixed_point (hS : ScalarRT E) (hc : RTSafeD c = true) (ht : HasType 
       ∃ x', convertC E c d = .value x' ∧ x'.eqv x = true := by
   have hc' := hc
   simp only [RTSafeD, Bool.and_eq_true] at hc'
-  exact C06_fixed_point_general hS (intoDynF_dynId E classes enums n) hc'.1 hn ht
+  exact C06_fixed_point_general hS (intoDynF_dynId E hS.noElemHook classes enums n) hc'.1 hn ht
     (RTOk_plain c hc'.2 x) (C06_dyn_agrees hS hc ht n n hn hn)
 
 /-- **C06, idempotence.**  `convert(convert(v, T), T) = convert(v, T)`. -/
@@ -90,7 +90,7 @@ example : exOkIs (intoDynF extRT [] [] 5 xDict)
 
 -- C06_dyn_agrees_any
 example : intoDynF extRT [] [] 5 xDec = intoC extRT dynEx exDec xDec :=
-  C06_dyn_agrees_any extRT_ok (intoDynF_dynId extRT [] [] 8) (by decide +kernel) (by decide +kernel)
+  C06_dyn_agrees_any extRT_ok (intoDynF_dynId extRT extRT_ok.noElemHook [] [] 8) (by decide +kernel) (by decide +kernel)
     xDec_typed 5 (by decide +kernel)
 
 -- C06_fixed_point: a list of (int, float) tuples, a set of ints
@@ -110,7 +110,7 @@ example : ∃ d, intoDynF extRT [] [] 6 xLT = .ok d ∧
 -- C06_fixed_point_general: a dataclass (its class registered for the untyped serialiser), `Optional[int]`
 example : ∃ d, intoDynF extRT [("Pt", exPane)] [] 9 xPt = .ok d ∧ d.isInterchange = true ∧
     ∃ x', convertC extRT exPane d = .value x' ∧ x'.eqv xPt = true :=
-  C06_fixed_point_general extRT_ok (intoDynF_dynId extRT [] [] 8) (by decide +kernel) (by decide +kernel)
+  C06_fixed_point_general extRT_ok (intoDynF_dynId extRT extRT_ok.noElemHook [] [] 8) (by decide +kernel) (by decide +kernel)
     xPt_typed xPt_ok (by
       have h1 : intoDynF extRT [("Pt", exPane)] [] 9 xPt =
           .ok (.dict [(.str "X", .int 1), (.str "y", .float (.fin 2 0))]) := exOkIs_eq (by decide +kernel)
@@ -119,7 +119,7 @@ example : ∃ d, intoDynF extRT [("Pt", exPane)] [] 9 xPt = .ok d ∧ d.isInterc
       rw [h1]; exact h2.symm)
 example : ∃ d, intoDynF extRT [] [] 9 (.int 3) = .ok d ∧ d.isInterchange = true ∧
     ∃ x', convertC extRT exOpt d = .value x' ∧ x'.eqv (.int 3) = true :=
-  C06_fixed_point_general extRT_ok (intoDynF_dynId extRT [] [] 8) (by decide +kernel) (by decide +kernel)
+  C06_fixed_point_general extRT_ok (intoDynF_dynId extRT extRT_ok.noElemHook [] [] 8) (by decide +kernel) (by decide +kernel)
     ⟨.int 3, by decide +kernel, okIs_eq (by decide +kernel)⟩ exOpt_ok_int (by
       have h1 : intoDynF extRT [] [] 9 (.int 3) = .ok (.int 3) := exOkIs_eq (by decide +kernel)
       have h2 : intoC extRT dynEx exOpt (.int 3) = .ok (.int 3) := exOkIs_eq (by decide +kernel)
